@@ -363,6 +363,9 @@ func run() {
 	// zex tables and images (data only)
 	write("ZexData", genZexData(*repo))
 	allMods = append(allMods, "ZexData")
+	// structural facts (C10)
+	write("Facts", t.genFacts())
+	allMods = append(allMods, "Facts")
 	// per-file umbrellas and All
 	var fts []string
 	for ft := range perFile {
